@@ -608,7 +608,12 @@ impl Interface {
 
         #[cfg(feature = "proto-ipv6-slaac")]
         if self.inner.slaac_enabled {
-            res = res.min(self.inner.slaac.poll_at(timestamp));
+            // `Option::min` would let a `None` from SLAAC (no deadline) hide every
+            // socket deadline, as `None < Some(_)`.
+            res = match (res, self.inner.slaac.poll_at(timestamp)) {
+                (Some(a), Some(b)) => Some(a.min(b)),
+                (a, b) => a.or(b),
+            };
         }
 
         res
